@@ -528,7 +528,11 @@ where
             {
                 return false;
             }
-            matched(m)
+            // With the bounded look-ahead above, an end anchor can match at
+            // the cut, which yields a match reaching beyond the lines we were
+            // given. Callers index into those lines with it, so only report
+            // the part of the match that lies within them.
+            matched(m.with_end(std::cmp::min(m.end(), range.end)))
         })
         .map_err(io::Error::error_message)
 }
@@ -589,7 +593,8 @@ where
             return false;
         }
         dst.extend(&bytes[last_match..m.start()]);
-        last_match = m.end();
+        // See `find_iter_at_in_context`: the match may reach beyond the range.
+        last_match = std::cmp::min(m.end(), range.end);
         append(caps, dst)
     })?;
     let end = std::cmp::min(bytes.len(), range.end);
